@@ -24,7 +24,7 @@ structure CoreGood (c : Core) (d : Data) (start pos stop : Int) : Prop where
   hwR : c.wR = d.W pos stop
 
 theorem Simple.mean_filled {s : Simple} {d : Data} {start stop : Int} (h : Simple.Filled s d start stop)
-    (a b : Int) (wp : Rat) (h1 : start ≤ a) (h2 : a ≤ b) (h3 : b ≤ stop) :
+    (a b : Int) (wp : Rat) (h1 : start ≤ a) (_h2 : a ≤ b) (h3 : b ≤ stop) :
     Simple.mean s a b wp = if a = b then (0, wp) else (d.wmean a b, d.W a b) := by
   unfold Simple.mean
   split
